@@ -92,6 +92,12 @@ CLAIMED = {
         text="MCClouds walks the sphere (0.25 deg x 0.625 deg incl. poles, +-180 deg, longitudes up to +-360 deg) and shows the cell predicate total and the regimes exhaustive. Kernel events use cloud tops at -inf, first segment -ulp / exact / +ulp, an inner segment, penultimate segment exact / +ulp, last segment and +inf (segment altitudes from the public slant_depth / valid_arrays): bit-identical below, exactly zero above. The cloud models are called on sphere lattices and on ground positions produced by the geometry stage; for the monthly maps (read with astropy.io.fits and exported to TLC) the returned altitude must equal the standard-atmosphere altitude of one of the four corner pressures of the containing cell.",
         note="Assumes: the value in the 'in between' regime is checked here only for finiteness and sign; its numerical value is the business of Cherenkov.tla (C06). Any corner of the containing cell conforms.",
         design="4/C09"),
+    "C20": dict(
+        category="model_checking",
+        technique="TLA+ spec Radio.tla: bin sets model-checked exhaustively over all 13 695 aligned bands (with an unaligned counter-model that must fail); band and shower events of the real radio chain validated by TraceRadio.tla",
+        text="MCRadio proves for every 10 MHz-aligned band in 0-1650 MHz that the field bins and the antenna/noise bins are the same set. Bands (all in thorough, 289 in quick) are pushed through RadioEFieldParams and calculate_snr with the antenna-voltage and noise functions wrapped to log the bin centres they receive; TLC compares count and centres with the spec sets. Shower batches come from the real geometry/tau/decay stages (33, 525, 2000 km; energies 1e9-1e11 GeV) with boundary altitudes made geometrically consistent and a decay exactly at the surface; each is evaluated with E and 3E, 3 and 12 antennas, permuted, under a constant random stream: proportionality (1e-13), sqrt(N) law, order independence (bitwise), exact zeros outside [0, 10] km, finiteness.",
+        note="Assumes: fixed random numbers = constant np.random stream; field bin centres are the centres of the shipped parameter file.",
+        design="4/C20"),
 }
 
 NOT_BUILT_REASON = "not claimed yet: its specification module and binding are not finished in this tree (see DESIGN.md section 9 build order); no other technique is substituted"
